@@ -1013,7 +1013,18 @@ func (c *pyConfig) MustGet(key string) pyObject {
 
 // Freeze returns a copy of this config that is frozen for further updates.
 func (c *pyConfig) Freeze() pyObject {
-	return &pyFrozenConfig{pyConfig: *c}
+	frozen := &pyFrozenConfig{pyConfig: *c}
+	if c.overlay != nil {
+		// The values are shared with every package that subincludes this file, so they must be frozen too.
+		frozen.overlay = make(pyDict, len(c.overlay))
+		for k, v := range c.overlay {
+			if f, ok := v.(freezable); ok {
+				v = f.Freeze()
+			}
+			frozen.overlay[k] = v
+		}
+	}
+	return frozen
 }
 
 // Merge merges the contents of the given config object into this one.
